@@ -3,6 +3,8 @@
    the model in Sdf/Shape.v and of the matrix code translated from sdf/matrix.go
    (Generated/MatrixExpr.v); `k_xxx ... = Some o` reads "the Go constructor returned the object o". *)
 From Coq Require Import Reals List Lra ZArith.
+(* the hand-written model functions are equal to the terms translated from the current Go source *)
+From Sdfx Require Sdf.GenEq.
 From Sdfx Require Import Num.Ops Num.RInst Geo.Vec Geo.Box Geo.NormR Geo.MinMaxR Geo.Mat Geo.MatR Geo.RotR Geo.PolarR
   Sdf.Union2 Sdf.Union2R Sdf.Shape Sdf.ShapeR Sdf.BlendR Sdf.DenoteR Sdf.DenoteR2 Sdf.Cache Sdf.Voxel.
 Import ListNotations.
